@@ -37,7 +37,9 @@ Next == CASE Mode = "scan" -> NextScan [] Mode = "cmds" -> NextCmds [] Mode = "v
 Text == IF Mode = "views" THEN JoinTerm([i \in 1..Len(es) |-> LineOfEntry(es[i])], <<NL>>) ELSE b
 
 \* C14
-ScanIsRef == Mode = "scan" => Scanner(b, FixedCond) = LinesRef(b)
+ScanSt0 == [lines |-> <<>>, start |-> 0, end |-> 0, tstart |-> 0, trim |-> TRUE]
+ScanIsRef == Mode = "scan" => /\ Scanner(b, FixedCond) = LinesRef(b)
+                              /\ \A f \in BOOLEAN : ScanLoop(b, 0, ScanSt0, f) = ScanLoopRef(b, 0, ScanSt0, f)   \* fold = recursion
 NewlineIrrelevant == (Mode = "scan" /\ b # <<>> /\ b[Len(b)] # NL) =>
                         Len(Scanner(b, FixedCond)) = Len(Scanner(Append(b, NL), FixedCond))
 OnePerLine == Mode = "scan" => Len(LinesRef(b)) = Cardinality({i \in 1..Len(Segments(b)) : ~IsBlankLine(Segments(b)[i])})
@@ -49,6 +51,7 @@ ViewsAreRef == Mode = "views" =>
     /\ View(es, "prefixed") = PrefixedRef(es)
     /\ View(es, "install") = CmdsRef(es, InstallKinds)
     /\ View(es, "uninstall") = CmdsRef(es, UninstallKinds)
+    /\ \A v \in {"files", "prefixed", "install", "uninstall"} : View(es, v) = ViewLoopRef(es, 1, <<FALSE, <<>>, <<>>>>, v)   \* fold = recursion
 \* the four views list the same files in the same order
 SameFiles == Mode = "views" =>
     LET fi(v) == SelectSeq(v, IsFile) IN
